@@ -15,7 +15,7 @@ Clauses
              clamped into the generated range; the 1/h_f terms only for difference-forming rules)
              (constants.json: C03_tol['method|1|k-bucket|default-order2, default-order4 or user'], else C03_tol / C01_tol
              ['method|1|k-bucket']; missing key or null = weak cell)
-  extrapolated-order   |J - exact|_ej <= C_X[method] * min(U_basic, U_x) + floor with the Richardson-aware unit of
+  extrapolated-order   |J - exact|_ej <= C_X[method] * T + C_XR * R + floor, T + R = the Richardson-aware unit of
              multivar.extrapolated_unit (documented leading order p and spacing s restated there; U_x = truncation
              terms of order >= 1 + p + s t of the majorant series at the window heads + rounding at the window
              tails, times sum |rule weights| * sum |Richardson weights|, t = min(2, k_est - 1)); asserted for the
@@ -42,12 +42,14 @@ CALIBRATE = bool(os.environ.get('NVERIF_CALIBRATE'))
 FLOOR = 64.0
 AFFINE_REAL = 4096.0
 AFFINE_CSTEP = 64.0
-K_DIR = 1e4
-# extrapolated-order clause: |err| <= C_X[method] * min(U_basic, U_x) + floor, asserted for the short geometric user
-# sequences (step kind 'geo') of every method and for the default configuration of the real-step methods.
-# Worst ratios over 2 x 8 seeds: central 0.14, complex 0.16, multicomplex (order 2) 0.039, forward 337, backward 7e3
-# (one-sided rules with exact-step rounding are noisy).
-C_X = {'central': 2.0, 'complex': 10.0, 'multicomplex': 10.0, 'forward': 1e4, 'backward': 1e5}
+K_DIR = 1e5
+# extrapolated-order clause: |err| <= C_X[method] * T + C_XR * R + floor, (T, R) = truncation and rounding parts of
+# min(U_basic, U_x); asserted for the short geometric user sequences (step kind 'geo') of every method and for the
+# default configuration of the real-step methods.  Worst err/T over truncation-dominated entries (8 quick seeds +
+# thorough seed 0, 178 000 cases): central 4.8, complex 0.29, multicomplex (order 2) 8.3, forward 422, backward 31;
+# worst err/R over rounding-dominated entries 2.1e3.
+C_X = {'central': 50.0, 'complex': 3.0, 'multicomplex': 100.0, 'forward': 5e3, 'backward': 500.0}
+C_XR = 1e5
 ASSUME_KNOWN = bool(os.environ.get('NVERIF_ASSUME_KNOWN'))     # development aid only, never set by ./check
 OVERFLOW = 1e150
 METHODS = ['central', 'forward', 'backward', 'complex', 'multicomplex']
@@ -184,7 +186,7 @@ class C03(Prop):
     def __init__(self):
         self.table = load_table()
         self.constants = {'FLOOR_eps_multiple': FLOOR, 'AFFINE_REAL_eps_multiple': AFFINE_REAL,
-                          'AFFINE_CSTEP_eps_multiple': AFFINE_CSTEP, 'K_DIR': K_DIR, 'C_X': dict(C_X),
+                          'AFFINE_CSTEP_eps_multiple': AFFINE_CSTEP, 'K_DIR': K_DIR, 'C_X': dict(C_X), 'C_XR': C_XR,
                           'tol_table': 'nverif/constants.json:C01_tol (n=1) overridden by C03_tol',
                           'tol_cells_in_force': {k: v for k, v in self.table.items() if '|1|' in k}}
 
@@ -282,24 +284,28 @@ class C03(Prop):
                     ux = mv.extrapolated_unit(an, 'Jacobian', method, order, e, (j,), [hs[:, j]], k_est, self._ratio, w,
                                               diff_forming, amp_rule)
                     if ux is not None and ux[0] > 0 and math.isfinite(ux[0]):
-                        U, which, t = ux
-                        rx = excess / U
+                        U, which, t, Tp, Rp = ux
                         xcfg = 'geo' if case['step']['kind'] == 'geo' else 'default' if cfg != 'user' else 'user'
-                        xlabel = '%s|%s|%s%s' % (method, bucket, xcfg,
-                                                 '|mcx-order>=4' if method == 'multicomplex' and order >= 4 else '')
-                        ctx.track('x-order err/U|%s' % xlabel, rx,
-                                  dict(prog=mv.describe(case['prog']), x=case['x'], e=e, j=j, order=order,
-                                       step=case['step'], lib=lib[e, j], exact=exact[e, j], U=U, unit=which, k_est=k_est))
+                        xlabel = '%s|%s%s' % (method, xcfg, '|mcx-order>=4' if method == 'multicomplex' and order >= 4 else '')
+                        summ = dict(prog=mv.describe(case['prog']), x=case['x'], e=e, j=j, order=order, step=case['step'],
+                                    lib=lib[e, j], exact=exact[e, j], U=U, T=Tp, R=Rp, unit=which, k_est=k_est)
+                        # truncation- and rounding-dominated windows are calibrated separately (extrapolating estimates
+                        # that differ only by rounding noise amplifies the noise)
+                        if Tp >= Rp:
+                            ctx.track('x-order err/T (T>=R)|%s' % xlabel, excess / Tp, summ)
+                        else:
+                            ctx.track('x-order err/R (R>T)|%s' % xlabel, excess / Rp, summ)
                         cx = c_x(method, xcfg)
                         if cx is not None and not CALIBRATE:
                             if xcfg == 'geo':
                                 ctx.count('x-order asserted on a short geometric user sequence|%s' % method)
-                            bounds[e, j] = cx * U + floor
-                            if rx > cx:
-                                raise Violation('extrapolated-order', '%s[%d,%d]=%r exact %r: |err|=%.3g > C_X(%g)*U(%.3g, %s '
-                                                'unit, t=%d, k_est=%d)+floor(%.3g) (method=%s order=%d)'
-                                                % (what, e, j, lib[e, j], exact[e, j], err, cx, U, which, t, k_est, floor,
-                                                   method, order), e=e, j=j, ratio=rx, k_est=k_est)
+                            bx = cx * Tp + C_XR * Rp
+                            bounds[e, j] = bx + floor
+                            if excess > bx:
+                                raise Violation('extrapolated-order', '%s[%d,%d]=%r exact %r: |err|=%.3g > C_X(%g)*T(%.3g)+C_XR(%g)*'
+                                                'R(%.3g) [%s unit, t=%d, k_est=%d] + floor(%.3g) (method=%s order=%d)'
+                                                % (what, e, j, lib[e, j], exact[e, j], err, cx, Tp, C_XR, Rp, which, t, k_est,
+                                                   floor, method, order), e=e, j=j, ratio=excess / bx, k_est=k_est)
                 if tol is None or CALIBRATE:
                     continue
                 bounds[e, j] = min(bounds[e, j], tol * S + floor)
